@@ -281,6 +281,37 @@ func (c *Ctx) AnalyzeLoopsExcept(fn *ssa.Function, except ...*ssa.Function) *ir.
 	return an
 }
 
+// AnalyzeKeeping analyses fn with the default inlining except that callees for which keep(callee origin) holds stay
+// opaque call events; key names the predicate for the cache.
+func (c *Ctx) AnalyzeKeeping(fn *ssa.Function, key string, keep func(*ssa.Function) bool) *ir.Analysis {
+	k := ir.FuncName(fn) + "|keeping|" + key
+	if a, ok := c.cache[k]; ok {
+		return a
+	}
+	o := *c.Options()
+	base := o.Inline
+	o.Inline = func(f *ssa.Function) bool {
+		g := f
+		if og := f.Origin(); og != nil {
+			g = og
+		}
+		if keep(g) {
+			return false
+		}
+		return base == nil || base(f)
+	}
+	an := ir.Analyze(fn, ir.NewRootState(fn, nil, nil, nil), &o)
+	c.cache[k] = an
+	if !c.Funcs[k] {
+		c.Funcs[k] = true
+		c.Paths += an.NPaths
+		for _, p := range an.AllPaths() {
+			c.Events += len(p.Steps)
+		}
+	}
+	return an
+}
+
 // AnalyzeSpawnLoops: AnalyzeSpawn with loop inlining.
 func (c *Ctx) AnalyzeSpawnLoops(s *ir.Step) (*ssa.Function, *ir.Analysis) {
 	fn, st := ir.SpawnState(s)
